@@ -455,22 +455,83 @@ def cmp_struct(run, S, name, got, exp, rule, where=None, tag='ret', hyp=None):
     return allok
 
 
+def _leaf_equalities(S, guards):
+    """exact equalities that hold on a path: {input atom name: term id it equals}.  Lets a correct special-case
+    branch (if x == c { shortcut }) be compared with the general formula under x := c."""
+    eqs = {}
+    for kind, tid, want in guards:
+        t = S.terms[tid]
+        if kind == 'ite' and want is True and t[0] == 'a' and t[1] == 'eq' and len(t[2]) == 2:
+            a, b = t[2]
+        elif kind == 'ite' and want is False and t[0] == 'a' and t[1] == 'ne' and len(t[2]) == 2:
+            a, b = t[2]
+        elif kind == 'switch' and want == 1 and t[0] == 'a' and t[1] == 'cmp' and len(t[2]) == 2:
+            a, b = t[2]
+        else:
+            continue
+        if S.terms[a][0] == 'v' and S.terms[b][0] != 'v':
+            eqs[S.terms[a][1]] = b
+        elif S.terms[b][0] == 'v' and S.terms[a][0] != 'v':
+            eqs[S.terms[b][1]] = a
+        elif S.terms[a][0] == 'v' and S.terms[b][0] == 'v':
+            eqs[S.terms[a][1]] = b
+    return eqs
+
+
+def _subst_struct(x, mapping):
+    if isinstance(x, list):
+        return [_subst_struct(y, mapping) for y in x]
+    if isinstance(x, El):
+        return A.substitute(x, mapping)
+    return x
+
+
 def check_value(run, S, name, expected, rule='K3 ring conformance', post=None, allow_panics=False, field_div=None):
-    sr = single_ret(run, S, name, allow_panics)
-    if sr is None:
+    """Every Return leaf must conform.  Normally there is exactly one; when the code special-cases inputs by exact
+    equality tests, each leaf is compared under the equalities of its own path, so a correct shortcut stays silent
+    and a wrong one is reported for that path."""
+    r = run.use_root(S, name)
+    if r is None:
+        run.ob('%s:%s:present' % (run.prop, name), False, rule='root-present', expected='harness root summarised',
+               found='missing (API form vanished or wrapper failed to compile)')
         return False
-    r, leaf = sr
-    cv = Conv(S, field_div=field_div)
+    ls = ret_leaves(r['out'])
+    tops = [l for g, l in ls if l['k'] in ('top', 'cut')]
+    if tops:
+        run.ob('%s:%s:analysable' % (run.prop, name), False, rule='analysable', expected='finite summary', found='not analysable: ' + tops[0]['why'])
+        return False
+    rets = [(g, l) for g, l in ls if l['k'] == 'ret']
+    pans = [(g, l) for g, l in ls if l['k'] == 'panic']
+    if allow_panics == 'arith' and any(not (l['why'].startswith('Overflow') or l['why'] in ('DivisionByZero', 'RemainderByZero', 'OverflowNeg')) for g, l in pans):
+        run.ob('%s:%s:panics' % (run.prop, name), False, rule='straight-line', expected='only arithmetic overflow / division-by-zero panics', found=sorted({l['why'] for g, l in pans}), where=r.get('span'))
+        return False
+    if not rets or (pans and not allow_panics) or len(rets) > 64:
+        run.ob('%s:%s:shape' % (run.prop, name), False, rule='straight-line', expected='Return leaves only (no Panic)' if not allow_panics else 'at least one Return leaf',
+               found='%d Return, %d Panic leaves' % (len(rets), len(pans)), where=r.get('span'))
+        return False
     ok = True
-    if expected is not None:
-        ok = cmp_struct(run, S, name, cv.val(leaf['v']), expected, rule, where=r.get('span')) and ok
-    if post is not None:
-        for argname, exp in post.items():
-            if argname not in leaf['post']:
-                run.ob('%s:%s:post:%s' % (run.prop, name, argname), False, rule=rule, expected='post-state of ' + argname, found='absent')
-                ok = False
-                continue
-            ok = cmp_struct(run, S, name, cv.val(leaf['post'][argname]), exp, rule, where=r.get('span'), tag='post.' + argname) and ok
+    for li, (guards, leaf) in enumerate(rets):
+        eqs = _leaf_equalities(S, guards) if len(rets) > 1 else {}
+        if len(rets) > 1 and not eqs and any(kind == 'ite' for kind, _, _ in guards) and False:
+            pass
+        cv0 = Conv(S, field_div=field_div)
+        env = {}
+        mapping = {}
+        for an, tid in eqs.items():
+            e_ = cv0.el(tid)
+            env[an] = e_
+            mapping[A.CTX.atom(an)] = e_
+        cv = Conv(S, env=env, field_div=field_div) if env else cv0
+        suffix = '' if len(rets) == 1 else ':path%d' % li
+        if expected is not None:
+            ok = cmp_struct(run, S, name + suffix, cv.val(leaf['v']), _subst_struct(expected, mapping), rule, where=r.get('span')) and ok
+        if post is not None:
+            for argname, exp in post.items():
+                if argname not in leaf['post']:
+                    run.ob('%s:%s:post:%s' % (run.prop, name + suffix, argname), False, rule=rule, expected='post-state of ' + argname, found='absent')
+                    ok = False
+                    continue
+                ok = cmp_struct(run, S, name + suffix, cv.val(leaf['post'][argname]), _subst_struct(exp, mapping), rule, where=r.get('span'), tag='post.' + argname) and ok
     return ok
 
 
